@@ -4,7 +4,7 @@ import random
 from harness import common as C
 
 RULE_FILES = ["Rules/RealPrelude.v", "Rules/ScalarRules.v", "Rules/Complex.v", "Containers/VSpace.v",
-              "Containers/VSpaceProof.v", "Array/Broadcast.v", "Array/Run01.v", "Array/MatMul.v", "Array/Index.v", "Array/Select.v", "Array/RunSel.v", "Rules/Stats.v", "Rules/StatsProof.v", "Array/RunStats.v", "Array/Bilinear.v", "Array/RunBil.v", "Rules/ComplexRing.v", "Array/RunBilC.v", "Array/Realified.v", "Array/RunReal.v"]
+              "Containers/VSpaceProof.v", "Array/Broadcast.v", "Array/Run01.v", "Array/MatMul.v", "Array/Index.v", "Array/Select.v", "Array/RunSel.v", "Rules/Stats.v", "Rules/StatsProof.v", "Array/RunStats.v", "Array/Bilinear.v", "Array/RunBil.v", "Rules/ComplexRing.v", "Array/RunBilC.v", "Array/Realified.v", "Array/RunReal.v", "Array/LinAlg.v", "Array/RunLin.v"]
 IMPORTS = ("From Coq Require Import List ZArith.\nImport ListNotations.\n"
            "From AG Require Import VSpace VSpaceProof Broadcast Run01 MatMul.\nLocal Open Scope Z_scope.\n")
 
@@ -179,6 +179,30 @@ def run_bilinear_complex(res, tag, seed):
     return bad, tie, None
 
 
+def term_lin(c):
+    ll = lambda m: C.clist([C.clist([C.cz(x) for x in row]) for row in m])  # noqa: E731
+    return ("{| l_n := %s; l_p := %s; l_A := %s; l_B := %s; l_b := %s; l_T := %s; l_kind := %s; l_impl := %s; l_ok := %s |}"
+            % (C.cnat(c["n"]), C.cnat(c["p"]), ll(c["A"]), ll(c["B"]), ll(c["b"]), ll(c["T"]), c["kind"], ll(c["impl"]), C.cbool(c["ok"])))
+
+
+def run_linalg(res, tag, seed, n=70):
+    """linalg.inv / linalg.solve on unimodular integer matrices: the rules of Array/LinAlg.v against autograd's"""
+    out, err = C.run_impl("impl_linalg.py", {"seed": seed, "n": n})
+    if out is None:
+        return [], [], err
+    cases = out["cases"]
+    for k, v in out["dist"].items():
+        res.count(k, v)
+    imports = ("From Coq Require Import List ZArith.\nImport ListNotations.\n"
+               "From AG Require Import MatMul LinAlg RunLin.\nLocal Open Scope Z_scope.\n")
+    codes = C.coq_eval(tag + "_lin", imports, "", [term_lin(c) for c in cases], "checklin")
+    res.add_cases(len(cases), [("lin", c["kind"], str(c["A"]), str(c["T"])) for c in cases], [{"primitive": c["kind"], "A": c["A"]} for c in cases[:1]])
+    bad = [dict(c, site={"primitive": "linalg." + ("inv" if c["kind"].startswith("Inv") else "solve")}, primitive="linalg." + ("inv" if c["kind"].startswith("Inv") else "solve"),
+                configuration=c["kind"], what="shape or kind of the result wrong") for c, k in zip(cases, codes) if k == 2]
+    tie = [dict(c, primitive="linalg", configuration=c["kind"]) for c, k in zip(cases, codes) if k == 1]
+    return bad, tie, None
+
+
 def term_real(c):
     zl = lambda l: C.clist([C.cz(x) for x in l])  # noqa: E731
     S = C.clist(["(mk %s %s %s %s)" % (C.cnat(a), C.cnat(b), C.cnat(o), C.cz(k)) for a, b, o, k in c["S"]])
@@ -325,6 +349,11 @@ def run(res, tier, seed, broken, props, with_bcast, containers=False):
             bad, tie = bad + b, tie + t
         if err:
             broken = broken + [{"obligation": "complex bilinear correspondence failed to run", "log": err[-3000:]}]
+    if set(props) & {"C01", "C04", "C05"}:
+        b, t, err = run_linalg(res, "la_" + props[0].lower(), seed, 210 if tier == "thorough" else 70)
+        bad, tie = bad + b, tie + t
+        if err:
+            broken = broken + [{"obligation": "linalg correspondence failed to run", "log": err[-3000:]}]
     ob, err = run_oracle(res, props, tier, seed)
     if err:
         broken = broken + [{"obligation": "implementation oracle failed to run", "log": err[-3000:]}]
